@@ -127,6 +127,8 @@ def op_text(op):
         return " ".join([k, str(int(op[1]))] + [hx(t) for t in op[2]])
     if k == "graph":
         return " ".join(["graph"] + [hx(t) for t in op[1]])
+    if k == "setcmd":
+        return "setcmd %s %s" % (hx(op[1]), hx(op[2]))
     if k == "write":
         return "write %s %s" % (hx(op[1]), op[2])
     if k in ("rm", "mkdir", "fifo", "uncopy"):
@@ -315,6 +317,7 @@ class Project:
         os.makedirs(self.cwd, exist_ok=True)
         self.cwd_sub = cwd_sub
         self.stage_paths = []
+        self.cmds = {}
         self.harness_corrupted = set()
         self.harness_removed = set()
 
@@ -373,6 +376,7 @@ class Project:
             yaml.safe_dump(doc, f, default_flow_style=False)
         if sp not in self.stage_paths:
             self.stage_paths.append(sp)
+        self.cmds[sp] = st.get("cmd") or b""
 
     def write_index(self):
         with open(os.path.join(self.root, ".dud", "index"), "wb") as f:
@@ -400,6 +404,42 @@ class Project:
             os.mkfifo(full)
         elif kind == "flink":
             os.symlink(os.fsencode(self.foreign) if arg else b"/nonexistent/verif-dangling", full)
+
+    def inconsistent_stages(self):
+        """stages (with a vcmd command) whose outputs are not what the command yields from the inputs as they are now"""
+        bad = []
+        rootb = os.fsencode(self.root)
+
+        def read(p):
+            full = os.path.join(rootb, p)
+            if os.path.isdir(full):
+                out = b""
+                for name in sorted(os.listdir(full)):
+                    out += name + b"=" + read(os.path.join(p, name)) + b";"
+                return out
+            with open(full, "rb") as f:
+                return f.read()
+        for sp, cmd in self.cmds.items():
+            toks = cmd.split()
+            if len(toks) < 2 or toks[0] != b"vcmd":
+                continue
+            ident, rest = toks[1], toks[2:]
+            outs = rest[:rest.index(b"--")] if b"--" in rest else rest
+            ins = rest[rest.index(b"--") + 1:] if b"--" in rest else []
+            try:
+                payload = ident + b"(" + b"/".join(read(p) for p in ins) + b")"
+                for o in outs:
+                    t = o.rstrip(b"/")
+                    if o.endswith(b"/"):
+                        ok = read(os.path.join(t, b"f")) == payload + b"#f" and read(os.path.join(t, b"sub", b"g")) == payload + b"#g"
+                    else:
+                        ok = read(t) == payload + b"@" + o
+                    if not ok:
+                        bad.append(sp)
+                        break
+            except OSError:
+                bad.append(sp)
+        return bad
 
     def obj_path(self, d):
         return os.path.join(self.cache, d[:2], d[2:])
@@ -652,6 +692,7 @@ def apply_op(proj, op, mstep, b3):
         rc, so, se = proj.dud([k] + (["--single-stage"] if op[1] else []) + targets(op[2]))
         if k == "run":
             r["log"] = [l for l in open(proj.log, "rb").read().split(b"\n") if l] if os.path.exists(proj.log) else []
+            r["inconsistent"] = proj.inconsistent_stages()
     elif k == "status":
         rc, se, lines = proj.status_lines(op[1])
         r["lines"] = lines
@@ -735,6 +776,13 @@ def apply_op(proj, op, mstep, b3):
             r["x"] = [list(p) for p in convert_old_schema(proj, b3)]
         elif k == "moveproj":
             proj.move()
+        elif k == "setcmd":
+            path = proj.abspath(op[1])
+            doc = yaml.safe_load(open(path, "rb").read()) or {}
+            doc["command"] = op[2].decode()
+            with open(path, "w") as f:
+                yaml.safe_dump(doc, f, default_flow_style=False)
+            proj.cmds[op[1]] = op[2]
         else:
             raise ValueError(op)
     r["rc"] = rc
@@ -771,6 +819,7 @@ def run_case(args):
             snap = proj.snapshot(b3)
             lock = os.path.exists(os.path.join(proj.root, ".dud", "lock"))
             step = dict(i=i, op=op, rc=r["rc"], err=r["err"], snap=snap, status=r["lines"], x=r["x"], log=r["log"],
+                        inconsistent=r.get("inconsistent"),
                         stderr=r["stderr"].decode(errors="replace")[-400:], lock=lock,
                         corrupted=sorted(proj.harness_corrupted), removed=sorted(proj.harness_removed))
             out["steps"].append(step)
@@ -798,8 +847,8 @@ def run_case(args):
                 out["diffs"].append("step %d %s: digest renaming differs: model %s impl %s" % (i, op_text(op), ms["x"], r["x"]))
             if ms["log"] is not None and r["log"] is not None:
                 ids = {}
-                for sp_, st_ in case["stages"]:
-                    toks_ = (st_.get("cmd") or b"").split()
+                for sp_, cmd_ in proj.cmds.items():
+                    toks_ = (cmd_ or b"").split()
                     ids[sp_] = toks_[1] if len(toks_) > 1 else b"?"
                 if sorted(ids.get(x, x) for x in ms["log"]) != sorted(r["log"]):
                     out["diffs"].append("step %d %s: executed stages differ: model %s impl %s" % (i, op_text(op), ms["log"], r["log"]))
